@@ -82,8 +82,11 @@ impl<T: Deref<Target = str>> Relativizer<T> {
 
     fn candidate<'a>(&self, iri: &'a str) -> Option<Cow<'a, str>> {
         let lcp = longest_common_prefix(&self.base, iri);
-        if lcp >= self.query_end {
-            // iri is identicical to base or differs in the fragment only.
+        if lcp >= self.query_end
+            && (iri.len() == self.query_end || iri[self.query_end..].starts_with('#'))
+        {
+            // iri is identicical to base or differs in the fragment only
+            // (and not merely longer than base's query or last path segment).
             // regardless, we must include the fragment (if any) in the relative IRI.
             Some(iri[self.query_end..].into())
         } else if lcp > self.path_end {
@@ -102,6 +105,19 @@ impl<T: Deref<Target = str>> Relativizer<T> {
             // would inherit that query: the last path segment must be repeated instead)
             // → same as above
             Some(iri[self.path_end..].into())
+        } else if lcp == self.path_end
+            && self.base.path().is_empty()
+            && (iri.len() == self.path_end || iri[self.path_end..].starts_with('#'))
+        {
+            // base has an empty path and a query that iri has not (otherwise we would have matched above):
+            // there is no path segment to repeat
+            if self.base.authority().is_some() {
+                // "." would resolve to the path "/": a network-path reference is the shortest one
+                Some(iri[self.base.scheme().len() + 1..].into())
+            } else {
+                // "." resolves to the empty path
+                Some(format!(".{}", &iri[self.path_end..]).into())
+            }
         } else if lcp >= self.pseudoroot {
             // iri and base have similar paths
             for (nb, slash) in self.slashes.iter().copied().enumerate() {
